@@ -15,6 +15,7 @@
                              constructors (rf = true: refs_validated first, the repaired order) *)
 From Coq Require Import ZArith List Bool String Lia.
 From DD Require Import Common Carrier Bits BitsSpec Mir GenErr Layout Reset ResetProofs.
+From DD Require ResetWire Proto.
 Import ListNotations.
 Open Scope Z_scope.
 
@@ -228,6 +229,39 @@ Example C08_dangling_override_panics :
   pipeline_with true d = Ok (RErr (mk_err "ref_unknown" ["Register"; "FooRef"; "Nope"]%string)).
 Proof. vm_compute. split; reflexivity. Qed.
 
+(* Composition with the register protocol (C05): the bytes `write(|_| ())` hands the interface are the declared
+   reset value — one interface write, the declared size, ceil(size/8) bytes. *)
+Theorem C08_write_sends_reset : forall rf d em r orc h a,
+  pipeline_with rf d = Ok (GenErr.ROk em) ->
+  In (ORegister r) (preorder_objects (d_objects d)) -> 0 < rg_size_bits r ->
+  let bo := effective_byte_order (d_config d) (rg_byte_order r) in
+  let wire := spec_bytes (rg_reset r) bo (rg_size_bits r) in
+  exists cs resp,
+    In cs (em_sets em) /\ cs_name cs = rg_name r /\ cs_new cs = wire /\
+    In {| ac_name := snake (rg_name r); ac_field_set := rg_name r; ac_reset_fn := "new" |} (em_accessors em) /\
+    Proto.run orc (Proto.reg_write a (rg_size_bits r) (cs_new cs) ResetWire.id_closure) h =
+      ([(Proto.RegWrite a (rg_size_bits r) wire, resp)],
+       Proto.Done (match Proto.r_res resp with Proto.ROk _ => Proto.ROk tt | Proto.RErr e => Proto.RErr e end)).
+Proof. exact ResetWire.register_write_sends_reset. Qed.
+
+(* A ref that overrides the reset value sends ITS value through its own constructor; the target keeps its own. *)
+Theorem C08_ref_write_sends_override : forall rf d em c name target acc addr aao rv rep base orc h a,
+  pipeline_with rf d = Ok (GenErr.ROk em) ->
+  In (ORef c name (OvRegister target acc addr aao (Some rv) rep)) (preorder_objects (d_objects d)) ->
+  search_object target (d_objects d) = Some (ORegister base) -> 0 < rg_size_bits base ->
+  let bo := effective_byte_order (d_config d) (rg_byte_order base) in
+  let size := rg_size_bits base in
+  let wire := spec_bytes (Some rv) bo size in
+  exists cs resp,
+    In cs (em_sets em) /\ cs_name cs = rg_name base /\
+    In (new_as_name name, wire) (cs_new_as cs) /\
+    cs_new cs = spec_bytes (rg_reset base) bo size /\
+    In {| ac_name := snake name; ac_field_set := rg_name base; ac_reset_fn := new_as_name name |} (em_accessors em) /\
+    Proto.run orc (Proto.reg_write a size wire ResetWire.id_closure) h =
+      ([(Proto.RegWrite a size wire, resp)],
+       Proto.Done (match Proto.r_res resp with Proto.ROk _ => Proto.ROk tt | Proto.RErr e => Proto.RErr e end)).
+Proof. exact ResetWire.ref_write_sends_override. Qed.
+
 Print Assumptions C08_accept_iff.
 Print Assumptions C08_never_panics.
 Print Assumptions C08_bytes.
@@ -241,3 +275,5 @@ Print Assumptions C08_ref_override_own_constructor.
 Print Assumptions C08_ref_without_override_uses_new.
 Print Assumptions C08_device_rejects_bad_reset.
 Print Assumptions C08_search_object_first_in_preorder.
+Print Assumptions C08_write_sends_reset.
+Print Assumptions C08_ref_write_sends_override.
